@@ -149,12 +149,26 @@ impl BlockWriter {
         }
 
         let mut offset: usize = 0;
+        let mut stalled = false;
         loop {
             let size = self.decoder.as_mut().unwrap().write(&pkt[offset..])?;
             self.decoder_read(writer, now)?;
             offset += size;
             if offset == pkt.len() {
                 break;
+            }
+
+            if size == 0 {
+                // The decoder does not consume its input anymore (end of the compressed stream
+                // or content length already reached), the remaining data can never be written
+                if stalled {
+                    return Err(FluteError::new(
+                        "Decompression is stalled, remaining data cannot be decoded",
+                    ));
+                }
+                stalled = true;
+            } else {
+                stalled = false;
             }
         }
         Ok(())
